@@ -49,8 +49,8 @@ SLICES = {
 }
 TIERS = {'quick': ['q1', 'q2', 'q3', 'q4', 'q5'], 'thorough': ['q1', 'q2', 'q3', 'q4', 'q5', 'q6', 'q7', 't1', 't3']}
 # quick tier: the slices that exercise the property's own phases (thorough runs all of them for every property)
-QUICK = {'C07': ['q1', 'q2', 'q4', 'q5', 'q6'], 'C08': ['q1', 'q2', 'q6'], 'C09': ['q2', 'q4', 'q5', 'q6'],
-         'C10': ['q2', 'q3', 'q5'], 'C19': ['q2', 'q4', 'q5', 'q7']}
+QUICK = {'C07': ['q1', 'q2', 'q4', 'q5'], 'C08': ['q1', 'q2', 'q6'], 'C09': ['q4', 'q5', 'q6'],
+         'C10': ['q2', 'q3', 'q5'], 'C19': ['q4', 'q5', 'q7']}
 
 
 def cfg_text(sl, formulas, export=None, devs=()):
@@ -149,7 +149,7 @@ def run(out, prop, tier, seed, max_replay=None, only_slices=None):
     formulas = PROP_FORMULAS[prop]
     rnd = random.Random(seed)
     slices = only_slices or (QUICK[prop] if tier == 'quick' else TIERS[tier])
-    cap = max_replay or (3000 if tier == 'quick' else 10 ** 9)
+    cap = max_replay or (2000 if tier == 'quick' else 10 ** 9)
     for sl in slices:
         nsrc, nsea, nbor = SLICES[sl][:3]
         import time as _t
